@@ -209,6 +209,12 @@ func Gen(prop, tier string, seed, run uint64) Plan {
 		if r.IntN(6) == 0 {
 			p.ImportFail = 1 + r.IntN(2)
 		}
+	} else if prop != "C20" && prop != "C11" {
+		// disk errors are part of every property's fault mix, at a lower rate
+		p.MergeFail = r.IntN(10) == 0
+		if r.IntN(12) == 0 {
+			p.ImportFail = 1 + r.IntN(2)
+		}
 	}
 	p.Listener = prop == "C20"
 	if prop == "C20" {
@@ -534,6 +540,9 @@ func Gen(prop, tier string, seed, run uint64) Plan {
 	}
 	if prop == "C13" && r.IntN(3) == 0 {
 		p.Restarts = []int{8 + r.IntN(40)}
+	}
+	if (prop == "C05" || prop == "C10" || prop == "C07") && r.IntN(4) == 0 {
+		p.Restarts = []int{5 + r.IntN(40)}
 	}
 	if prop == "C12" {
 		p.CrashEvery = 1
